@@ -366,6 +366,42 @@ impl<const N: u8> Drop for Tk<N> {
     }
 }
 
+// ---------------------------------------------------------------------------------------------
+// kind 41: a hand-written (instrumented) Clone but NO drop glue: a clone implemented by copying
+// bytes instead of calling Clone::clone is visible only on such a type
+pub struct CompC {
+    id: u32,
+    payload: u32,
+}
+impl Comp for CompC {
+    const KIND: u8 = 41;
+    const HAS_ID: bool = true;
+    const PAYLOAD_MASK: u64 = 0xFFFF_FFFF;
+    fn make(payload: u64) -> Self {
+        CompC { id: rt::on_make(41, true), payload: payload as u32 }
+    }
+    fn obs(&self) -> Obs {
+        check_live(41, self.id);
+        Obs { kind: 41, id: self.id, payload: self.payload as u64 }
+    }
+    fn set(&mut self, payload: u64) {
+        self.payload = payload as u32;
+    }
+}
+impl Clone for CompC {
+    fn clone(&self) -> Self {
+        rt::on_clone_enter(41, self.id);
+        let n = Self::make(self.payload as u64);
+        rt::on_clone_done(41, self.id, n.id);
+        n
+    }
+}
+
+/// Kinds whose values run a tracked destructor (exactly-once drop accounting applies).
+pub fn kind_has_drop(kind: u8) -> bool {
+    !matches!(kind, 6 | 41)
+}
+
 pub fn payload_mask(kind: u8) -> u64 {
     match kind {
         0 => CompA::PAYLOAD_MASK,
